@@ -461,6 +461,15 @@ func Serve(opts Options) error {
 		return err
 	}
 	if opts.AppendOnly {
+		// An AOFSHRINK that was killed between its two renames leaves no live
+		// file but a complete backup of it: restore the backup.
+		if _, err := os.Stat(opts.AppendFileName); os.IsNotExist(err) {
+			if _, err := os.Stat(opts.AppendFileName + "-bak"); err == nil {
+				if err := os.Rename(opts.AppendFileName+"-bak", opts.AppendFileName); err != nil {
+					return err
+				}
+			}
+		}
 		f, err := os.OpenFile(opts.AppendFileName, os.O_CREATE|os.O_RDWR, 0600)
 		if err != nil {
 			return err
